@@ -200,12 +200,12 @@ def r7_attrs(text):
 
 
 def r10_iter_idioms(text):
-    """X.iter().any(c) / .all(c) -> verif_any(&X, c) / verif_all(&X, c) where X is a place
+    """X.iter().any(c) / .all(c) / .position(c) -> verif_any(&X, c) / verif_all(&X, c) / verif_position(&X, c) where X is a place
     expression (identifiers and field accesses, possibly spread over several lines)."""
     cnt = 0
     while True:
         m, _ = mask(text)
-        mo = re.search(r'((?:[A-Za-z_]\w*)(?:\s*\.\s*\w+)*?)\s*\.\s*iter\(\)\s*\.\s*(any|all)\s*\(', m)
+        mo = re.search(r'((?:[A-Za-z_]\w*)(?:\s*\.\s*\w+)*?)\s*\.\s*iter\(\)\s*\.\s*(any|all|position)\s*\(', m)
         if not mo:
             break
         op = mo.end() - 1
